@@ -3,7 +3,7 @@ against a fresh computation on the same fake terminal."""
 import os, random
 
 
-def get_cell_size(m, meta, n_hist=400):
+def get_cell_size(m, meta, n_hist=6000):
     import term_image
     import term_image.utils as U
     import term_image.geometry as G
@@ -45,7 +45,7 @@ def get_cell_size(m, meta, n_hist=400):
         term_image.disable_win_size_swap()
         term_image.enable_queries()
         trace = []
-        for step in range(rng.randint(2, 8)):
+        for step in range(rng.randint(2, 10)):
             op = rng.choice(["resize", "resize", "px", "swap", "queries", "reply", "get"])
             if op == "resize":
                 state["ts"] = rng.choice([t for t in [(80, 30), (100, 40), (120, 50)] if t != state["ts"]])
